@@ -1,7 +1,8 @@
 """C01 - orthonormalization never changes the represented state or operator.
 
 M: Canon.tla: sweep order, forms, bond charges bounded by the block-wise closed form, dummy branch <=> zero state, sign
-   flip, boundary charges; all layouts L <= 3, d <= 2, D <= 2, charges {0,1}, both modes, MPS and MPO.
+   flip, boundary charges, histories of calls on one object (Again; Idempotent: a repeated QR sweep in the same direction
+   finds the charges at their fixed point); all layouts L <= 3, d <= 2, D <= 2, charges {0,1}, both modes, MPS and MPO.
 S: every local factorization of a real orthonormalize call is recorded (site, direction, new bond charges, isometry,
    sparsity, two-site product) and validated by TraceCanon.tla against the sweep.
 E: integer / Gaussian-integer states: nrm^2 = ||v||^2 and nrm * v_new = v_old evaluated exactly by TLC.
@@ -12,11 +13,11 @@ import numpy as np
 from .. import common, canon
 from ..parallel import validate_chunks
 
-INV = ['FormsOK', 'SignOK', 'DimsOK', 'NoGrowth', 'OrderOK', 'BoundaryOK', 'ScaleBound']
+INV = ['FormsOK', 'SignOK', 'DimsOK', 'NoGrowth', 'OrderOK', 'BoundaryOK', 'ScaleBound', 'Idempotent']
 
 
 def canon_models(ctx, only_ortho_note=''):
-    cs = [('mps_L3', dict(L=3, DMAX=2, Class='"mps"', TolNum=1, TolDen=8), dict(QD='<<0,1>>', QB='{0,1}')),
+    cs = [('mps_L3', dict(L=3, DMAX=2, Class='"mps"', TolNum=1, TolDen=8, MaxCalls=2), dict(QD='<<0,1>>', QB='{0,1}')),
           ('mpo_L2', dict(L=2, DMAX=2, Class='"mpo"', TolNum=1, TolDen=5), dict(QD='<<0,1>>', QB='{0,1}')),
           ('mps_L1', dict(L=1, DMAX=1, Class='"mps"', TolNum=0, TolDen=1), dict(QD='<<0>>', QB='{0,1}')),
           ('mps_L2_d1', dict(L=2, DMAX=3, Class='"mps"', TolNum=1, TolDen=4), dict(QD='<<1>>', QB='{0,1,2}'))]
@@ -25,6 +26,7 @@ def canon_models(ctx, only_ortho_note=''):
                ('mpo_L3', dict(L=3, DMAX=2, Class='"mpo"', TolNum=1, TolDen=5), dict(QD='<<0,1>>', QB='{0,1}')),
                ('mps_L3_D3', dict(L=3, DMAX=3, Class='"mps"', TolNum=1, TolDen=8), dict(QD='<<-1,0,1>>', QB='{-1,0,1}'))]
     for tag, c, d in cs:
+        c.setdefault('MaxCalls', 2 if c['L'] <= 2 else 1)
         ctx.model('Canon', 'm_' + tag, constants=c, defs=d, invariants=INV, coverage=(tag == 'mps_L3'), timeout=3000)
 
 
